@@ -13,8 +13,8 @@
 (*   Diag          a piece of a diagnostic, written to fd 2 unbuffered     *)
 (*                 while the translation unit is parsed / analysed         *)
 (*   BeginDump     the AST consumer starts to print (internal)             *)
-(*   FillAndFlush  the dump filled the stdout buffer (bufsize bytes):      *)
-(*                 one write to fd 1                                       *)
+(*   FillAndFlush  the dump filled the stdout buffer (bufsize bytes, or a   *)
+(*                 multiple for one long item): one write to fd 1          *)
 (*   EndDump(r)    the dump is complete, r < bufsize bytes of it are       *)
 (*                 still in the buffer (internal)                          *)
 (*   SummaryWrite  a piece of "N warnings generated.", written to fd 2     *)
@@ -79,9 +79,11 @@ BeginDump ==
   /\ phase = "parse" /\ phase' = "dump"
   /\ UNCHANGED <<carets, merged, bufsize, flushed, tail, ndiag, nsum, pipe, errw>>
 
-FillAndFlush ==
-  /\ phase = "dump" /\ flushed + bufsize <= MaxDump
-  /\ flushed' = flushed + bufsize /\ pipe' = Put(pipe, "ast", bufsize)
+\* k = 1: the buffer is full.  k > 1: an item longer than the buffer arrives while the buffer is empty and
+\* llvm::raw_ostream::write hands the largest multiple of the buffer size straight to write(2).
+FillAndFlush(k) ==
+  /\ phase = "dump" /\ k >= 1 /\ flushed + k * bufsize <= MaxDump
+  /\ flushed' = flushed + k * bufsize /\ pipe' = Put(pipe, "ast", k * bufsize)
   /\ UNCHANGED <<carets, merged, bufsize, phase, tail, ndiag, nsum, errw>>
 
 EndDump(r) ==
@@ -105,7 +107,7 @@ Exit ==
   /\ flushed' = flushed + tail /\ tail' = 0
   /\ UNCHANGED <<carets, merged, bufsize, ndiag, nsum, errw>>
 
-Next == \/ Diag \/ BeginDump \/ FillAndFlush \/ (\E r \in 0..(bufsize - 1) : EndDump(r))
+Next == \/ Diag \/ BeginDump \/ (\E k \in 1..2 : FillAndFlush(k)) \/ (\E r \in 0..(bufsize - 1) : EndDump(r))
         \/ SummaryWrite \/ SummaryDone \/ Exit
 
 Spec == Init /\ [][Next]_svars
